@@ -327,97 +327,111 @@ fn op_compile_eval(job: &J) -> Result<J, String> {
     Ok(json!({"runs": per_tracing}))
 }
 
-/// C07 (and C06): type-check only; structured report of exhaustiveness diagnostics.
-fn op_infer(job: &J) -> Result<J, String> {
-    let tracing: Tracing = aik::tracing_of(job["tracing"].as_str().unwrap_or("verbose-all"))?;
-    let mut project = MemProject::new();
-    for m in job["modules"].as_array().cloned().unwrap_or_default() {
-        let name = m["name"].as_str().unwrap_or("m").to_string();
-        let kind = kind_of(m["kind"].as_str());
-        let src = m["src"].as_str().unwrap_or("").to_string();
-        let parsed = guarded(|| aiken_lang::parser::module(&src, kind));
-        let (mut ast, _) = match parsed {
-            Err(p) => return Ok(json!({"rejected": "panic", "stage": "parse", "panic": p})),
-            Ok(Err(e)) => {
-                let mut d = format!("{e:?}");
-                d.truncate(600);
-                return Ok(json!({"rejected": "parse", "detail": d}));
-            }
-            Ok(Ok(x)) => x,
-        };
-        ast.name = name.clone();
-        let mut warnings = vec![];
-        let r = guarded(|| {
-            ast.infer(
-                &project.id_gen,
-                kind,
-                &project.package,
-                &project.module_types,
-                tracing,
-                &mut warnings,
-                None,
-            )
-        });
-        let warn_json: Vec<J> = warnings
-            .iter()
-            .map(|w| {
-                let mut d = format!("{w:?}");
-                d.truncate(300);
-                json!({"variant": variant_name(&d), "debug": d})
-            })
-            .collect();
-        match r {
-            Err(p) => return Ok(json!({"rejected": "panic", "stage": "infer", "panic": p})),
-            Ok(Err(e)) => {
-                let errs: Vec<&TypeError> = match &e {
-                    _ => vec![&e],
-                };
-                let mut out = vec![];
-                for e in errs {
-                    let dbg = format!("{e:?}");
-                    let mut j = json!({"variant": variant_name(&dbg)});
-                    match e {
-                        TypeError::NotExhaustivePatternMatch {
-                            location,
-                            unmatched,
-                            is_let,
-                        } => {
-                            j["unmatched"] = json!(unmatched);
-                            j["is_let"] = json!(is_let);
-                            j["span"] = json!([location.start, location.end]);
-                        }
-                        TypeError::RedundantMatchClause { original, redundant } => {
-                            j["redundant"] = json!([redundant.start, redundant.end]);
-                            j["original"] = json!(original.map(|s| [s.start, s.end]));
-                        }
-                        _ => {
-                            let mut d = dbg.clone();
-                            d.truncate(600);
-                            j["debug"] = json!(d);
-                        }
-                    }
-                    out.push(j);
+/// Type-check one module against `project` (which is only extended when `register`).
+fn infer_item(project: &mut MemProject, m: &J, tracing: Tracing, register: bool) -> J {
+    let name = m["name"].as_str().unwrap_or("m").to_string();
+    let kind = kind_of(m["kind"].as_str());
+    let src = m["src"].as_str().unwrap_or("").to_string();
+    let parsed = guarded(|| aiken_lang::parser::module(&src, kind));
+    let (mut ast, _) = match parsed {
+        Err(p) => return json!({"rejected": "panic", "stage": "parse", "panic": p}),
+        Ok(Err(e)) => {
+            let mut d = format!("{e:?}");
+            d.truncate(600);
+            return json!({"rejected": "parse", "detail": d});
+        }
+        Ok(Ok(x)) => x,
+    };
+    ast.name = name.clone();
+    let mut warnings = vec![];
+    let r = guarded(|| {
+        ast.infer(
+            &project.id_gen,
+            kind,
+            &project.package,
+            &project.module_types,
+            tracing,
+            &mut warnings,
+            None,
+        )
+    });
+    let warn_json: Vec<J> = warnings
+        .iter()
+        .map(|w| {
+            let mut d = format!("{w:?}");
+            d.truncate(300);
+            json!({"variant": variant_name(&d), "debug": d})
+        })
+        .collect();
+    match r {
+        Err(p) => json!({"rejected": "panic", "stage": "infer", "panic": p}),
+        Ok(Err(e)) => {
+            let dbg = format!("{e:?}");
+            let mut j = json!({"variant": variant_name(&dbg)});
+            match &e {
+                TypeError::NotExhaustivePatternMatch {
+                    location,
+                    unmatched,
+                    is_let,
+                } => {
+                    j["unmatched"] = json!(unmatched);
+                    j["is_let"] = json!(is_let);
+                    j["span"] = json!([location.start, location.end]);
                 }
-                return Ok(json!({"rejected": "type", "module": name, "errors": out, "warnings": warn_json}));
+                TypeError::RedundantMatchClause { original, redundant } => {
+                    j["redundant"] = json!([redundant.start, redundant.end]);
+                    j["original"] = json!(original.map(|s| [s.start, s.end]));
+                }
+                _ => {
+                    let mut d = dbg.clone();
+                    d.truncate(600);
+                    j["debug"] = json!(d);
+                }
             }
-            Ok(Ok(typed)) => {
+            json!({"rejected": "type", "module": name, "errors": [j], "warnings": warn_json})
+        }
+        Ok(Ok(typed)) => {
+            if register {
                 typed.register_definitions(&mut project.functions, &mut project.constants, &mut project.data_types);
                 project
                     .module_sources
                     .insert(name.clone(), (src.clone(), aiken_lang::line_numbers::LineNumbers::new(&src)));
                 project.module_types.insert(name.clone(), typed.type_info.clone());
                 project.modules.push((name, typed));
-                project.warnings += warn_json.len();
-                if !warn_json.is_empty() {
-                    // keep going, but report
-                    if job["warnings"].as_bool().unwrap_or(true) {
-                        return Ok(json!({"accepted": true, "warnings": warn_json}));
-                    }
-                }
             }
+            json!({"accepted": true, "warnings": warn_json})
         }
     }
-    Ok(json!({"accepted": true, "warnings": []}))
+}
+
+/// C07 (and C06): type-check only; structured report of exhaustiveness diagnostics.
+/// Modules are checked in order, each seeing the previous ones; stops at the first rejection.
+fn op_infer(job: &J) -> Result<J, String> {
+    let tracing: Tracing = aik::tracing_of(job["tracing"].as_str().unwrap_or("verbose-all"))?;
+    let mut project = MemProject::new();
+    let mut all_warnings = vec![];
+    for m in job["modules"].as_array().cloned().unwrap_or_default() {
+        let r = infer_item(&mut project, &m, tracing, true);
+        if r.get("accepted").is_none() {
+            return Ok(r);
+        }
+        if let Some(w) = r["warnings"].as_array() {
+            all_warnings.extend(w.iter().cloned());
+        }
+    }
+    Ok(json!({"accepted": true, "warnings": all_warnings}))
+}
+
+/// Many independent single-module checks against the pristine prelude (items never see
+/// each other); the prelude is built once per job.
+fn op_infer_many(job: &J) -> Result<J, String> {
+    let tracing: Tracing = aik::tracing_of(job["tracing"].as_str().unwrap_or("verbose-all"))?;
+    let mut project = MemProject::new();
+    let mut results = vec![];
+    for m in job["items"].as_array().cloned().unwrap_or_default() {
+        results.push(infer_item(&mut project, &m, tracing, false));
+    }
+    Ok(json!({"results": results}))
 }
 
 fn main() {
@@ -445,6 +459,7 @@ fn main() {
                 let r = guarded(|| match job["op"].as_str().unwrap_or("compile_eval") {
                     "compile_eval" => op_compile_eval(&job),
                     "infer" => op_infer(&job),
+                    "infer_many" => op_infer_many(&job),
                     "fmt" => vh::surface::op_fmt(&job),
                     "schema" => vh::schema::op_schema(&job),
                     o => Err(format!("unknown op {o}")),
